@@ -1,0 +1,50 @@
+//go:build verif
+
+package common
+
+import (
+	"fmt"
+	"sort"
+)
+
+// VerifIterOrder, when set by a verification harness, decides the order in
+// which GenericSyncMap.Iterate visits the n entries of the map owner: it
+// returns a permutation of 0..n-1 that is applied to the keys sorted by their
+// fmt.Sprint rendering. It is only compiled with the "verif" build tag.
+var VerifIterOrder func(owner any, n int) []int
+
+// verifIterate visits m in the order chosen by VerifIterOrder and reports
+// whether it did so. Like the built-in range statement it skips entries that
+// were deleted by an earlier callback.
+func verifIterate[K comparable, V any](owner any, m map[K]V, cb func(key K, value V) bool) bool {
+	if VerifIterOrder == nil {
+		return false
+	}
+
+	keys := make([]K, 0, len(m))
+	for k := range m {
+		keys = append(keys, k)
+	}
+
+	sort.Slice(keys, func(i, j int) bool {
+		return fmt.Sprint(keys[i]) < fmt.Sprint(keys[j])
+	})
+
+	order := VerifIterOrder(owner, len(keys))
+	if len(order) != len(keys) {
+		panic(fmt.Sprintf("verif: bad iteration order %v for %d keys", order, len(keys)))
+	}
+
+	for _, i := range order {
+		v, ok := m[keys[i]]
+		if !ok {
+			continue
+		}
+
+		if !cb(keys[i], v) {
+			break
+		}
+	}
+
+	return true
+}
